@@ -80,6 +80,9 @@ Fixpoint segs_disjoint_b (l : list (N * bytes)) : bool :=
   | [] => true
   | x :: r => forallb (seg_disj_b x) r && segs_disjoint_b r
   end.
+(* is (off, pay) one of the received segments? *)
+Definition exact_dup (l : list (N * bytes)) (off : N) (pay : bytes) : bool :=
+  existsb (fun s => (fst s =? off) && bytes_eqb (snd s) pay) l.
 Definition opt_some {A} (o : option A) : bool := match o with Some _ => true | None => false end.
 
 Definition is_nil {A} (l : list A) : bool := match l with [] => true | _ => false end.
@@ -90,6 +93,13 @@ Fixpoint any_placed (m : smap) (off : N) (n : nat) : bool :=
   | O => false
   | S k => is_some_b (m off) || any_placed m (off + 1) k
   end.
+(* does the received map already hold EVERY byte of [off, off+n) ? *)
+Fixpoint all_placed (m : smap) (off : N) (n : nat) : bool :=
+  match n with
+  | O => true
+  | S k => is_some_b (m off) && all_placed m (off + 1) k
+  end.
+
 
 Section Spec.
   Context {Req Resp : Type}.
@@ -99,6 +109,9 @@ Section Spec.
   (* a data segment of a direction whose ISN is `isn` *)
   Definition dir_data {R} (parse : bytes -> option R) (d : sdir) (isn seq : N) (pay : bytes) : sdir * option R :=
     if d_done d then (d, None)
+    else if all_placed (d_map d) (seq_offset isn seq) (length pay) then (d, None)
+         (* a segment that brings no new byte changes nothing: received bytes are not replaced, the
+            stream seen so far is the one that was examined when its last new byte arrived *)
     else
       let m := place (d_map d) (seq_offset isn seq) pay in
       let n := (d_recv d + length pay)%nat in
@@ -162,6 +175,11 @@ Section Spec.
   Definition spec_outs (tr : list event) : list (hout Req Resp) := fst (srun [] tr).
   Definition spec_wf (tr : list event) : bool := snd (srun [] tr).
 
+  Definition client_done (id : N) (cs : list sconn) : bool :=
+    match conn_lookup id cs with
+    | Some c => d_done (sc_c c)
+    | None => false
+    end.
   Definition both_done (id : N) (cs : list sconn) : bool :=
     match conn_lookup id cs with
     | Some c => d_done (sc_c c) && d_done (sc_s c)
@@ -201,7 +219,7 @@ Section Spec.
           | None => (false, false, false, false)
           | Some isn =>
               let '(w, g, u) := classify_dir_strict d isn (e_seq e) (e_pay e) in
-              (w, g, u, e_client e && (e_fin e || e_rst e) && negb (both_done (e_conn e) cs1))
+              (w, g, u, e_client e && (e_rst e || (e_fin e && negb (client_done (e_conn e) cs1))) && negb (both_done (e_conn e) cs1))
           end
     | _, _ => (false, false, false, false)
     end.
@@ -229,9 +247,13 @@ Section Spec.
               offset and concatenated across the hole, are accepted by the head parser -- a head
               assembled from non-contiguous segments.
               An out-of-order arrival whose squeezed bytes do not parse is NOT in this class.
-       dup  : ... that carries a byte already received (retransmission / overlap)
-       fin  : a client data segment with FIN or RST after which request and response are not both
-              reported
+       dup  : ... that carries a byte already received without being an exact retransmission (same
+              offset, same bytes) of a received segment: a re-segmented retransmission / overlap.
+              Exact retransmissions are no longer in this class (repaired, fix C09-dup).
+       fin  : a client data segment with RST, or with FIN while the request is not yet reported, after
+              which request and response are not both reported (the flow is dropped and later
+              segments are ignored).  A FIN on or after the segment that completes the request --
+              the client half-close -- is no longer in this class (repaired, fix C09-fin).
      ------------------------------------------------------------------------------------------ *)
   Definition classify_dir {R} (parse : bytes -> option R) (d : sdir) (isn seq : N) (pay : bytes) : bool * bool * bool :=
     if d_done d then (false, false, false)
@@ -243,7 +265,7 @@ Section Spec.
       let hole := N.of_nat (length (prefix_from m n 0)) <? N.of_nat n in
       (seq <=? isn,
        segs_disjoint_b sg && hole && opt_some (parse (squeezed sg)),
-       any_placed (d_map d) off (length pay)).
+       any_placed (d_map d) off (length pay) && negb (exact_dup (d_segs d) off pay)).
 
   (* (wrap, gap, dup, fin) of one event; cs = state before, cs1 = state after *)
   Definition classify (cs : list sconn) (e : event) (cs1 : list sconn) : bool * bool * bool * bool :=
@@ -257,7 +279,7 @@ Section Spec.
           | Some isn =>
               let '(w, g, u) := if e_client e then classify_dir parse_req d isn (e_seq e) (e_pay e)
                                 else classify_dir parse_resp d isn (e_seq e) (e_pay e) in
-              (w, g, u, e_client e && (e_fin e || e_rst e) && negb (both_done (e_conn e) cs1))
+              (w, g, u, e_client e && (e_rst e || (e_fin e && negb (client_done (e_conn e) cs1))) && negb (both_done (e_conn e) cs1))
           end
     | _, _ => (false, false, false, false)
     end.
